@@ -236,6 +236,8 @@ PROPS = {
                 {"name": "c13_binding", "covers": ["altered"], "quick": {"max_paths": 1000, "timeout": 600}},
                 {"name": "c13_proof", "covers": ["verifies", "fails"], "quick": {"max_paths": 1000, "timeout": 600}},
                 {"name": "c13_historical", "covers": ["inconsistent", "consistent", "grown", "both_in_the_past", "dated_ahead_of_the_verifier_clock"], "quick": {"max_paths": 1000, "timeout": 600}},
+                {"name": "c13_node_quote", "covers": ["created"], "quick": {"max_paths": 10000, "timeout": 600}},
+                {"name": "c13_quotes_duty", "covers": ["ran", "handed_down", "nothing_handed_down"], "quick": {"max_paths": 10000, "timeout": 600}},
             ]},
             {"engine": "K", "crate": "k_evm", "harnesses": [
                 kh(f"c13_signed_bytes_bind_{f}", f"PaymentQuote::bytes_for_signing: two field sets that differ only in {what} give different signed bytes", "all values of every signed field (timestamp < 2^40 s); network_size present", C13_K_STUBS, quick=900, thorough=2400, only=only)
